@@ -439,7 +439,7 @@ struct dialect_mapping
   enum Dialect value;
 };
 
-static struct dialect_mapping dialects[] =
+static VERIF_CONST_DATA struct dialect_mapping dialects[] =
   {
    { "6502", NULL, mos6502_32000},
    { "PDP11", NULL, PDP11 },
